@@ -238,7 +238,7 @@ def run(ctx):
                                          "{backslash, quote, 0, 1, 7, 8} containing a backslash or quote")
         ctx.sample("single-code-point", {"cookies": [("k", "\xe9x")]})
         # ---------- random multi-cookie headers
-        for i in range(ctx.scale(30_000, 400_000)):
+        for i in range(ctx.scale(30_000, 1_500_000)):
             n = rng.randrange(1, 6)
             cookies = []
             for j in range(n):
